@@ -246,20 +246,43 @@ Definition has_kind (k : vkind) (v : val) : Prop :=
   | KR, VRoi (Some pts) => rect pts <> None
   | _, _ => False
   end.
+(* the kind of an XML attribute of that name; ROI_coords is the polygon added to spots *)
+Definition base_kind (md : mdmap) (k : string) : vkind :=
+  match alookup k md with
+  | Some (Some true) => KI
+  | Some (Some false) => KF
+  | Some None => KS
+  | None => if String.eqb k "ID" || String.eqb k "ROI_N_POINTS" then KI else KS
+  end.
 Definition key_kind (md : mdmap) (k : string) : vkind :=
-  if String.eqb k "ROI_coords" then KR
-  else match alookup k md with
-       | Some (Some true) => KI
-       | Some (Some false) => KF
-       | Some None => KS
-       | None => if String.eqb k "ID" || String.eqb k "ROI_N_POINTS" then KI else KS
-       end.
+  if String.eqb k "ROI_coords" then KR else base_kind md k.
 Definition typed (md : mdmap) (a : attrs) : Prop :=
   forall k v, alookup k a = Some v -> has_kind (key_kind md k) v.
 
+Lemma attr_ok_base_kind md k r : attr_okb md (k, r) = true -> has_kind (base_kind md k) (cval md k r).
+Proof.
+  intros H. unfold base_kind.
+  unfold attr_okb in H. cbn [fst snd] in H. apply andb_true_iff in H. destruct H as [_ H].
+  unfold cval, conv_one, conv_int. destruct (alookup k md) as [[[|]|]|].
+  - apply int_rawb_spec in H. destruct H as [z [f [-> Hr]]]. exact Hr.
+  - destruct (r_parse r); try discriminate; exact I.
+  - discriminate.
+  - destruct (String.eqb k "ID" || String.eqb k "ROI_N_POINTS").
+    + apply int_rawb_spec in H. destruct H as [z [f [-> Hr]]]. exact Hr.
+    + exact I.
+Qed.
+
+Lemma cattrs_typed_base md a : forallb (attr_okb md) a = true ->
+  forall k v, alookup k (cattrs md a) = Some v -> has_kind (base_kind md k) v.
+Proof.
+  intros H k v Hl. rewrite alookup_cattrs in Hl. destruct (alookup k a) as [r|] eqn:Ea; [|discriminate].
+  cbn in Hl. inversion Hl; subst v; clear Hl.
+  apply attr_ok_base_kind. apply (forallb_In _ _ _ H). apply alookup_some_in. exact Ea.
+Qed.
+
 Lemma attr_ok_kind md k r : k <> "ROI_coords" -> attr_okb md (k, r) = true -> has_kind (key_kind md k) (cval md k r).
 Proof.
-  intros Hk H. unfold key_kind. rewrite (seqb_neq _ _ Hk).
+  intros Hk H. unfold key_kind, base_kind. rewrite (seqb_neq _ _ Hk).
   unfold attr_okb in H. cbn [fst snd] in H. apply andb_true_iff in H. destruct H as [_ H].
   unfold cval, conv_one, conv_int. destruct (alookup k md) as [[[|]|]|].
   - apply int_rawb_spec in H. destruct H as [z [f [-> Hr]]]. exact Hr.
